@@ -170,12 +170,17 @@ impl Oplog {
                         get_slices_checked(&existing, OplogSlot::Entries as usize)?.1;
                     let mut entries: Vec<Entry> = Vec::new();
                     let mut partials: Vec<bool> = Vec::new();
+                    let mut entries_byte_length: u64 = 0;
                     while let Some(entry_outcome) = Self::validate_leader(entries_buff)? {
                         let res = Entry::decode(entry_outcome.state)?;
                         entries.push(res.0);
+                        entries_byte_length += (entries_buff.len() - res.1.len()) as u64;
                         entries_buff = res.1;
                         partials.push(entry_outcome.partial_bit);
                     }
+                    // New entries are appended after the ones that are already in the log
+                    outcome.oplog.entries_length = entries.len() as u64;
+                    outcome.oplog.entries_byte_length = entries_byte_length;
 
                     // Remove all trailing partial entries
                     while !partials.is_empty() && partials[partials.len() - 1] {
